@@ -10,5 +10,17 @@ struct nv_tuple_b_f64 lsearchk_get_weak(struct nv_lsearchk* self, struct nv_stat
 __CPROVER_requires(NV_PARAMS_OK)
 NV_WEAK_LSEARCHK_GET_CONTRACT
 {
-  return lsearchk_get(self, state, descent, step_size, logger);
+  double f_before = state->m_fx, dg_before = state->dg; uint64_t ver_before = state->ver;
+  struct nv_tuple_b_f64 r = lsearchk_get(self, state, descent, step_size, logger);
+  /* facts proved elsewhere, imported here (each is listed under the assumptions of specs/C02):
+   * (i)   solver_state_t::valid() => the value is finite (specs/C02 target state_valid);
+   * (ii)  success => the returned step is > 0 (C07: lsearchk_get_ieee for get given the do_get clause, step/ over the reals for the do_get bodies);
+   * (iii) has_armijo(origin, d, t, c1) is f_t <= f_0 + t*c1*(g_0.d) (C07 pred/has_armijo) and, for t > 0, c1 > 0, g_0.d < 0, that implies
+   *       f_t < f_0 (specs/C02 lemma/armijo_decrease; double treated as real) */
+  if (state->valid) __CPROVER_assume(__CPROVER_isfinited(state->m_fx));
+  if (r._0) __CPROVER_assume(r._1 > 0.0);
+  if (r._0 && nv_armijo.res && nv_armijo.ver == state->ver && nv_armijo.origin == ver_before && NV_SAME(nv_armijo.t, r._1) && r._1 > 0.0
+      && nv_armijo.c > 0.0 && dg_before < 0.0 && __CPROVER_isfinited(f_before) && __CPROVER_isfinited(state->m_fx))
+    __CPROVER_assume(state->m_fx < f_before);
+  return r;
 }
